@@ -115,6 +115,10 @@ func layoutFasta(r *rand.Rand, list []fasta.Fasta, width int, blanks, comments, 
 		if comments && r.Intn(3) == 0 {
 			sb.WriteString(";" + gen.RandText(r, 30, 0) + nl)
 		}
+		if comments && r.Intn(150) == 0 {
+			// a provenance blob in one comment line, longer than the usual line buffers (4 KiB, 64 KiB)
+			sb.WriteString(";" + randString(r, "ACGT {}\":,>;", []int{4090 + r.Intn(12), 65530 + r.Intn(12), 70000 + r.Intn(30000)}[r.Intn(3)]) + nl)
+		}
 		s := f.Sequence
 		if width <= 0 {
 			sb.WriteString(s + nl)
@@ -218,6 +222,9 @@ func (d *dribbleReader) Read(p []byte) (int, error) {
 
 var spinSink int
 
+// c13VeryLongStall is how long the consumer of the "away" streaming runs stays away once.
+var c13VeryLongStall = 6500 * time.Millisecond
+
 type streamResult struct {
 	recs        []fasta.Fasta
 	closedSeen  bool   // consumer observed the close
@@ -298,6 +305,11 @@ func streamParse(r *rand.Rand, text []byte, capacity int, stall int, dribble int
 		case 5: // a consumer that is only a little slower than the parser: a short spin per record
 			for i := r.Intn(spinMax + 1); i > 0; i-- {
 				spinSink++
+			}
+		case 6: // the consumer is away for longer than the round timeouts people put into send loops (5 s)
+			if len(res.recs) == longStallAt {
+				time.Sleep(c13VeryLongStall)
+				longStallAt = -1
 			}
 		case 4: // one long stall (0.6..1.2 s) while records are waiting: the parser has to wait as long as it takes
 			if len(res.recs) == longStallAt {
@@ -578,6 +590,42 @@ func runC13(w *mon.W) {
 		default:
 			if d := diffFasta(want, res.recs); d != "" {
 				w.Violation(id, fmt.Sprintf("records received from ParseConcurrent (capacity %d, stall pattern %d, chunk %d): %s", capacity, stall, dribble, d), rep)
+			}
+		}
+		w.End()
+	}
+	// the consumer is away once for 6.5 s (thorough: also 11 s and 31 s) while records are waiting: the parser waits
+	for k, away := range []time.Duration{6500 * time.Millisecond, 11 * time.Second, 31 * time.Second}[:w.Pick(1, 3)] {
+		id := fmt.Sprintf("away-%d", k)
+		idx++
+		if !w.Want(id, idx) {
+			continue
+		}
+		r := w.Rand(id)
+		want := randFastaList(r, false)
+		for len(want) < 8 {
+			want = append(want, randFastaList(r, false)...)
+		}
+		text := fasta.Build(append([]fasta.Fasta(nil), want...))
+		capacity := []int{0, 1, 2}[k%3]
+		c13VeryLongStall = away
+		w.Begin(id, fmt.Sprintf("%d records, capacity %d, consumer away for %v once", len(want), capacity, away))
+		res := streamParse(r, text, capacity, 6, 0, false)
+		w.Eval(true, mon.Hash64(string(text), "away", fmt.Sprint(away)))
+		w.Add("streaming_runs_with_a_consumer_away_for_seconds", 1)
+		rep := map[string]any{"records": len(want), "capacity": capacity, "received": len(res.recs), "away": away.String()}
+		switch {
+		case res.timedOut:
+			w.Inconclusive(fmt.Sprintf("%s: streaming run did not finish within the 120 s wall-clock watchdog", id))
+		case res.parked != "":
+			w.Violation(id, fmt.Sprintf("ParseConcurrent (capacity %d) never returns after the consumer was away for %v (%s)", capacity, away, res.parked), rep)
+		case res.panicMsg != "":
+			w.Violation(id, fmt.Sprintf("ParseConcurrent (capacity %d, consumer away for %v once): %s", capacity, away, res.panicMsg), rep)
+		case res.neverClosed:
+			w.Violation(id, fmt.Sprintf("ParseConcurrent returned without closing its channel (capacity %d, consumer away for %v once, %d of %d records received)", capacity, away, len(res.recs), len(want)), rep)
+		default:
+			if d := diffFasta(want, res.recs); d != "" {
+				w.Violation(id, fmt.Sprintf("records received from ParseConcurrent by a consumer that was away for %v once (capacity %d): %s", away, capacity, d), rep)
 			}
 		}
 		w.End()
